@@ -135,7 +135,9 @@ def explore(R, exe, cap, nkeys, nops, maxhold, script=None, release=None):
             if holders:
                 choices += ["fin"] * 3
             if len(holders) >= maxhold:
-                choices = ["fin"]
+                # mostly give something back; now and then look up once more with every reference out: with all buffers referenced
+                # or being filled the answer must be `busy` (and must not be when one is free)
+                choices = ["fin"] * 5 + ["get"]
             kind = rng.choice(choices)
             arg = rng.randrange(nkeys) if kind == "get" else rng.randrange(len(holders))
         if kind == "get":
